@@ -321,11 +321,15 @@ macro_rules! exec_rational {
                     }
                     match form % 2 {
                         0 => {
-                            w.f[dst] = x.to_float(prec).value();
+                            let r = x.to_float(prec);
+                            env.emit_u64("exact", matches!(r, Approximation::Exact(_)) as u64);
+                            w.f[dst] = r.value();
                             env.res(Pool::F, dst);
                         }
                         _ => {
-                            w.d[dst] = x.to_float(prec).value();
+                            let r = x.to_float(prec);
+                            env.emit_u64("exact", matches!(r, Approximation::Exact(_)) as u64);
+                            w.d[dst] = r.value();
                             env.res(Pool::D, dst);
                         }
                     }
@@ -345,10 +349,26 @@ macro_rules! exec_rational {
                 "tof64" => {
                     let x = &w.$pool[a];
                     let r = x.to_f64();
+                    // verdict: 0 exact, 1 / 2 inexact with the sign of the error
+                    let verdict = |r: &Approximation<f64, Sign>| match r {
+                        Approximation::Exact(_) => 0u64,
+                        Approximation::Inexact(_, Sign::Positive) => 1,
+                        Approximation::Inexact(_, Sign::Negative) => 2,
+                    };
+                    env.emit_u64("v64", verdict(&r));
                     env.emit_f64("f64", r.value());
                     env.emit_f64("fast", x.to_f64_fast());
                     let r = x.to_f32();
+                    env.emit_u64(
+                        "v32",
+                        match &r {
+                            Approximation::Exact(_) => 0,
+                            Approximation::Inexact(_, Sign::Positive) => 1,
+                            Approximation::Inexact(_, Sign::Negative) => 2,
+                        },
+                    );
                     env.emit_f32("f32", r.value());
+                    env.emit_f32("fast32", x.to_f32_fast());
                 }
                 "parse" => {
                     // text from the literal bytes (ASCII); a malformed or zero-denominator input must be refused
@@ -551,7 +571,18 @@ fn exec_special(w: &mut World, op: &Op, rest: &str, env: &mut Env, pool: &str) {
                 return env.skip();
             }
             let r = match op.n.unsigned_abs() % 3 {
-                0 => w.r[a].nearest(lim).value(),
+                0 => {
+                    let r = w.r[a].nearest(lim);
+                    env.emit_u64(
+                        "side",
+                        match &r {
+                            Approximation::Exact(_) => 0,
+                            Approximation::Inexact(_, Sign::Positive) => 1,
+                            Approximation::Inexact(_, Sign::Negative) => 2,
+                        },
+                    );
+                    r.value()
+                }
                 1 => w.r[a].next_up(lim),
                 _ => w.r[a].next_down(lim),
             };
